@@ -7,6 +7,8 @@ COQ_PROPS = ['Props/C01.v']
 COQ_IMPORTS = ['Prims', 'CaseLib', 'BitsCore', 'SeqProofs']
 RULE = ('all four classes x contents at boundary lengths x exhaustive (start,stop,step) in [-L-2,L+2]^2 x [-4,4] for L<=5 (quick) / L<=7 (thorough) plus random triples '
         'on longer contents, indices in and beyond range, operand pairs of all class combinations and promotable str/bytes/list/bitarray, repeat counts -2..70 and a few large; '
+        'each kind of case again after a prelude of boundary-valued expressions on unrelated objects (shifts by >= len, empty slices, * 0, empty operands, joins, copies, cuts, zero-width reads, '
+        'clear / delete-all; mutable results edited in place), followed by every way of making an empty bitstring and the re-evaluated sequence expressions, each result probed in full; '
         'non-trivial = non-empty content and a result that is not the whole operand; distinct by (op, arguments)')
 TRUSTED_BASE = ['L0: Prims.seq_slice/seq_getitem are compared with CPython list slicing on every run (op l0_slice)']
 ASSUMPTIONS = ['bitarray slicing equals Python sequence slicing (modelled as Prims.seq_slice; L0 corr.)', 'msb0 mode (lsb0 is C12)']
@@ -59,13 +61,331 @@ def gen_cases(rng, tier):
         yield {'op': rng.choice(['mul', 'rmul', 'imul']), 'cls': rng.choice(CLASSES), 'bits': bits[:lb], 'n': n, 'route': rng.choice(ROUTES), 'lsb0': rng.random() < 0.25}
     for n in [1000, 1023, 1024, 1025, 4097]:
         yield {'op': 'mul', 'cls': 'Bits', 'bits': rand_bits(rng, rng.randrange(1, 4)), 'n': n, 'route': 'bin'}
+    # history: the result of an operation depends only on the operands' bits, hence not on what was evaluated earlier in the process. A case of any of the kinds
+    # above is preceded by a prelude of boundary-valued expressions on unrelated objects (shifts by >= len, empty slices, s * 0, sums with empty operands, joins,
+    # copies, cuts, zero-width reads, clear / delete-all, ...; results that are mutable are then edited in place); afterwards the case must still hold, every way of
+    # making an empty bitstring must still give an empty one, and the sequence-level expressions of the prelude, evaluated again, must give what the model gives.
+    for _ in range(300 if tier == 'quick' else 4000):
+        yield gen_hist(rng, tier)
 
 def kind(c):
-    return c['op']
+    return c['op'] if c['op'] != 'hist' else 'hist:' + c['base']['op']
+
+# ---------------------------------------------------------------------------------------------------------------------------------------------
+# histories (op 'hist')
+# ---------------------------------------------------------------------------------------------------------------------------------------------
+EMPTY_HOWS = ['()', 'str', 'bin', 'length0', 'int0', 'bytes', 'list', 'hex', 'b', 'copyof', 'slice_of_empty', 'cls_of_empty']
+REF_VERBS = ['empty', 'new', 'slice', 'mul', 'rmul', 'add', 'radd']                     # judged by the sequence model when evaluated again
+FREE_VERBS = ['lshift', 'rshift', 'ilshift', 'irshift', 'imul', 'iadd', 'join', 'copy', 'invert', 'bitop', 'cut', 'split', 'clear', 'delall', 'setempty',
+              'append_empty', 'prepend_empty', 'unpack0', 'read0', 'pack', 'replace', 'reverse', 'zeros', 'insert_empty', 'rstrip']   # only evaluated (other properties judge them)
+MUTABLE_VERBS = ['clear', 'delall', 'setempty', 'append_empty', 'prepend_empty', 'insert_empty', 'replace', 'reverse', 'rstrip']
+EDITS = ['append', 'prepend', 'iadd', 'insert', 'setslice', 'setbin', 'imul', 'invert', 'set', 'clear', 'ilshift', 'overwrite', 'none', 'none']
+PLAIN_ROUTES = ['bin', 'auto', 'iter', 'bitarray', 'slice', 'copy', 'join', 'bytes']
+
+def _small_bits(rng):
+    return rand_bits(rng, rng.choice([0, 0, 1, 1, 2, 3, 4, 5, 7, 8, 8, 9, 15, 16, 17, 24, 33, 64, 65, rand_len(rng, 'quick')]))
+
+def gen_expr(rng, verbs=None):
+    """One expression on a fresh object (JSON); the boundary values of every argument are favoured."""
+    v = rng.choice(verbs or (REF_VERBS + REF_VERBS[2:] + FREE_VERBS + ['lshift', 'rshift', 'copy', 'join']))
+    e = {'e': v, 'cls': rng.choice(MUTABLE if v in MUTABLE_VERBS else ['ConstBitStream', 'BitStream'] if v == 'read0' else CLASSES), 'lsb0': rng.random() < 0.2}
+    if v == 'empty':
+        e['how'] = rng.choice(EMPTY_HOWS); return e
+    bits = _small_bits(rng); l = len(bits)
+    e['bits'] = bits; e['route'] = rng.choice(PLAIN_ROUTES)
+    bound = lambda: rng.choice([0, 0, 1, l - 1, l, l, l + 1, 2 * l, 2 * l + 1, 64, 200, 65536, (1 << 31) - 1, 1 << 31, (1 << 63) - 1, 1 << 64, -1])
+    if v == 'slice':
+        p = lambda: rng.choice([None, 0, 1, l // 2, l - 1, l, l + 1, -1, -l, -l - 1, 2 * l + 3])
+        r = rng.random()
+        if r < 0.5:
+            a = p(); e['k'] = [a, rng.choice([a, a, 0, None if a in (None, 0) else 0, p()]), rng.choice([None, 1, 1, 2, -1])]    # mostly empty results
+        else: e['k'] = [p(), p(), rng.choice([None, 1, -1, 2, -2, 3, l + 1, 0])]
+    elif v in ('mul', 'rmul', 'imul'): e['n'] = rng.choice([0, 0, 0, 1, 1, 2, 3, -1])
+    elif v in ('lshift', 'rshift', 'ilshift', 'irshift'): e['n'] = bound()
+    elif v in ('add', 'radd', 'iadd'):
+        k = rng.choice(CLASSES + ['str', 'str', 'list', 'tuple', 'bitarray', 'bytes', 'gen'])
+        if v == 'radd' and k in CLASSES: k = 'str'
+        b2 = rng.choice(['', '', '', '1', '0', '101', '00000000', _small_bits(rng)])
+        if k == 'bytes': b2 = b2[:len(b2) - len(b2) % 8]
+        e['other'] = k; e['bits2'] = b2
+    elif v == 'join': e['items'] = [rng.choice(['', '', '1', '0', '10', _small_bits(rng)[:9]]) for _ in range(rng.choice([0, 0, 1, 2, 3]))]; e['as'] = rng.choice(['bits', 'str', 'own'])
+    elif v == 'copy': e['how'] = rng.choice(['copy', 'copy.copy', '[:]', 'cls', 'deepcopy', '__copy__'])
+    elif v == 'bitop': e['which'] = rng.choice('&|^'); e['bits2'] = rand_bits(rng, l)
+    elif v == 'cut': e['n'] = rng.choice([1, 2, max(l, 1), l + 1, 8]); e['count'] = rng.choice([None, 0, 1])
+    elif v == 'split': e['delim'] = rng.choice(['1', '0', '11', bits[:2] or '1', '10101010101']); e['count'] = rng.choice([None, 0, 1])
+    elif v == 'unpack0': e['fmt'] = rng.choice(['bits:0, bits', 'bits', 'bits:0', 'bin:0, bits', 'pad:0, bits:0', 'hex:0'])
+    elif v == 'read0': e['how'] = rng.choice(['read(0)', "read('bits:0')", "readlist('bits:0, bits:0')", 'peek(0)', 'read(len)', 'read(rest) at end', "readlist('bits')", 'readto'])
+    elif v == 'pack': e['how'] = rng.choice(["''", 'bits', 'bits:0', 'list'])
+    elif v == 'replace': e['old'] = rng.choice(['1', '0', bits[:3] or '1']); e['new'] = rng.choice(['', '', '1'])
+    elif v == 'zeros': e['n'] = rng.choice([0, 0, 1, 3, 8, 9, 64]); e['how'] = rng.choice(['int', 'length', 'uint0', 'bin'])
+    elif v == 'rstrip': e['how'] = rng.choice(['del_front', 'del_back', 'del_mid'])
+    return e
+
+def gen_step(rng):
+    e = gen_expr(rng)
+    e['edit'] = rng.choice(EDITS)
+    return e
+
+def gen_base(rng, tier):
+    """an ordinary case of one of the kinds above (small and boundary lengths)"""
+    l = rng.choice([0, 0, 1, 2, 3, 5, 7, 8, 9, 16, 17, 33, 64, 65, rand_len(rng, tier)])
+    bits = rand_bits(rng, l); cls = rng.choice(CLASSES); route = rng.choice(ROUTES if rng.random() < 0.3 else PLAIN_ROUTES)
+    r = lambda: rng.choice([None, None, 0, l, rng.randrange(-l - 3, l + 4)])
+    op = rng.choice(['slice', 'getitem', 'seq', 'add', 'radd', 'mul', 'mul', 'rmul', 'imul'])
+    lsb0 = rng.random() < 0.2
+    if op == 'slice':
+        return {'op': 'slice', 'cls': cls, 'bits': bits, 'k': [r(), r(), rng.choice([None, 1, -1, 2, -2, 3, -3, l + 1])], 'route': 'bin' if lsb0 else route, **({'lsb0': True} if lsb0 else {})}
+    if op == 'getitem':
+        return {'op': 'getitem', 'cls': cls, 'bits': bits, 'i': rng.choice([0, -1, l - 1, l, -l, -l - 1]), 'route': 'bin' if lsb0 else route, **({'lsb0': True} if lsb0 else {})}
+    if op == 'seq': return {'op': 'seq', 'cls': cls, 'bits': bits, 'route': route, 'lsb0': lsb0}
+    if op in ('add', 'radd'):
+        k = rng.choice(CLASSES + ['str', 'list', 'tuple', 'bitarray', 'bytes'] + ITERATOR_KINDS[:2])
+        if op == 'radd' and k in CLASSES: op = 'add'
+        b2 = rng.choice(['', '', '1', _small_bits(rng)])
+        if k == 'bytes': b2 = b2[:len(b2) - len(b2) % 8]
+        return {'op': op, 'cls': cls, 'bits': bits, 'other': k, 'bits2': b2, 'route': route, 'pos': rng.choice([None, 0, l]), 'lsb0': lsb0}
+    return {'op': op, 'cls': cls, 'bits': bits[:130], 'n': rng.choice([0, 0, 0, 1, 2, 3, -1]), 'route': route, 'lsb0': lsb0}
+
+def gen_hist(rng, tier):
+    prelude = [gen_step(rng) for _ in range(rng.choice([1, 2, 3, 4, 6, 8, 12, 16, 24]))]
+    probes = []
+    for cls in rng.sample(CLASSES, 2):                    # every way of making an empty object of two classes, and the empty results of the sequence operations
+        for how in EMPTY_HOWS: probes.append({'e': 'empty', 'cls': cls, 'how': how})
+    for cls in CLASSES:
+        b = _small_bits(rng); l = len(b)
+        probes.append({'e': rng.choice(['mul', 'rmul']), 'cls': cls, 'bits': b, 'route': 'bin', 'n': 0})
+        probes.append({'e': 'slice', 'cls': cls, 'bits': b, 'route': 'bin', 'k': rng.choice([[l, None, None], [None, 0, None], [l // 2, l // 2, None], [l, 0, 2], [0, l, -1], [2 * l + 1, None, None]])})
+        probes.append({'e': rng.choice(['add', 'radd']), 'cls': cls, 'bits': '', 'route': rng.choice(['bin', 'auto']), 'other': 'str', 'bits2': ''})
+    for e in prelude:                                      # the sequence-level expressions of the prelude once more
+        if e['e'] in REF_VERBS: probes.append({k: v for k, v in e.items() if k not in ('edit', 'lsb0')})
+    for _ in range(3): probes.append(gen_expr(rng, REF_VERBS)); probes[-1].pop('lsb0', None)
+    return {'op': 'hist', 'prelude': prelude, 'base': gen_base(rng, tier), 'probes': probes, 'plsb0': rng.random() < 0.2}
+
+def _operand(kind, bits):
+    return build(kind, bits, 'bin') if kind in CLASSES else promotable(bits, kind)
+
+LAST_OPERAND = None
+
+def eval_expr(e):
+    """Evaluate one expression on the implementation: the object (or list of objects) it yields."""
+    import bitstring, copy
+    C = cls_of(e['cls']); v = e['e']
+    if v == 'empty':
+        h = e['how']
+        if h == '()': return C()
+        if h == 'str': return C('')
+        if h == 'bin': return C(bin='')
+        if h == 'length0': return C(length=0)
+        if h == 'int0': return C(0)
+        if h == 'bytes': return C(bytes=b'')
+        if h == 'list': return C([])
+        if h == 'hex': return C(hex='')
+        if h == 'b': return C(b'')
+        if h == 'copyof': return C().copy()
+        if h == 'slice_of_empty': return C()[:]
+        if h == 'cls_of_empty': return C(C())
+        raise AssertionError(h)
+    global LAST_OPERAND
+    s = LAST_OPERAND = build(e['cls'], e['bits'], e.get('route', 'bin'))
+    if v == 'new': return s
+    if v == 'slice': a, b, st = e['k']; return s[a:b:st]
+    if v == 'mul': return s * e['n']
+    if v == 'rmul': return e['n'] * s
+    if v == 'imul': s *= e['n']; return s
+    if v == 'add': return s + _operand(e['other'], e['bits2'])
+    if v == 'radd': return _operand(e['other'], e['bits2']) + s
+    if v == 'iadd': s += _operand(e['other'], e['bits2']); return s
+    if v == 'lshift': return s << e['n']
+    if v == 'rshift': return s >> e['n']
+    if v == 'ilshift': s <<= e['n']; return s
+    if v == 'irshift': s >>= e['n']; return s
+    if v == 'join':
+        items = [bitstring.Bits(bin=x) if e['as'] == 'bits' else C(bin=x) if e['as'] == 'own' else ('0b' + x if x else '') for x in e['items']]
+        return s.join(items)
+    if v == 'copy':
+        h = e['how']
+        return s.copy() if h == 'copy' else copy.copy(s) if h == 'copy.copy' else s[:] if h == '[:]' else C(s) if h == 'cls' else copy.deepcopy(s) if h == 'deepcopy' else s.__copy__()
+    if v == 'invert': return ~s
+    if v == 'bitop':
+        o = bitstring.Bits(bin=e['bits2'])
+        return s & o if e['which'] == '&' else s | o if e['which'] == '|' else s ^ o
+    if v == 'cut': return list(s.cut(e['n'], count=e['count']))
+    if v == 'split': return list(s.split('0b' + e['delim'], count=e['count']))
+    if v == 'clear': s.clear(); return s
+    if v == 'delall': del s[:]; return s
+    if v == 'setempty': s[:] = ''; return s
+    if v == 'append_empty': s.append(''); return s
+    if v == 'prepend_empty': s.prepend(C()); return s
+    if v == 'insert_empty': s.insert('', 0); return s
+    if v == 'unpack0': return [x for x in s.unpack(e['fmt']) if isinstance(x, bitstring.Bits)]
+    if v == 'read0':
+        h = e['how']
+        if h == 'read(0)': return s.read(0)
+        if h == "read('bits:0')": return s.read('bits:0')
+        if h == "readlist('bits:0, bits:0')": return s.readlist('bits:0, bits:0')
+        if h == 'peek(0)': return s.peek(0)
+        if h == 'read(len)': s.read(len(s)); return s.read(0)
+        if h == 'read(rest) at end': s.pos = len(s); return s.read('bits')
+        if h == "readlist('bits')": s.pos = len(s); return s.readlist('bits')
+        if h == 'readto': return s.readto('0b1')
+        raise AssertionError(h)
+    if v == 'pack':
+        h = e['how']
+        if h == "''": return bitstring.pack('')
+        if h == 'bits': return bitstring.pack('bits', C())
+        if h == 'bits:0': return bitstring.pack('bits:0', s[0:0])
+        return bitstring.pack([])
+    if v == 'replace': s.replace('0b' + e['old'], ('0b' + e['new']) if e['new'] else C()); return s
+    if v == 'reverse': s.reverse(); return s
+    if v == 'zeros':
+        n, h = e['n'], e['how']
+        return C(n) if h == 'int' else C(length=n) if h == 'length' else C(uint=0, length=n) if h == 'uint0' else C(bin='0' * n)
+    if v == 'rstrip':
+        l = len(s)
+        if e['how'] == 'del_front': del s[:l]
+        elif e['how'] == 'del_back': del s[-l:]
+        else: del s[0:l:1]
+        return s
+    raise AssertionError(v)
+
+def apply_edit(r, edit):
+    """edit a result in place when it is a mutable bitstring (a result that shares anything with the library's own objects shows afterwards)"""
+    import bitstring
+    if not isinstance(r, bitstring.BitArray) or edit == 'none': return
+    if edit == 'append': r.append('0b1')
+    elif edit == 'prepend': r.prepend('0b10')
+    elif edit == 'iadd': r += bitstring.Bits('0b011')
+    elif edit == 'insert': r.insert('0b1', 0)
+    elif edit == 'setslice': r[0:0] = '0b11'
+    elif edit == 'setbin': r.bin = '1101'
+    elif edit == 'imul': r.append('0b10'); r *= 2
+    elif edit == 'invert': r.append('0b0'); r.invert()
+    elif edit == 'set': r.append('0b00'); r.set(True)
+    elif edit == 'clear': r.clear(); r.append('0b111')
+    elif edit == 'ilshift': r.append('0b01'); r <<= 1
+    elif edit == 'overwrite': r.append('0b000'); r.overwrite('0b11', 0)
+
+def ref_expr(e):
+    """what the sequence model (the property text on str) gives for a sequence-level expression, evaluated under msb0: ('ok', class, bits) / ('err', name)"""
+    v = e['e']
+    if v == 'empty': return ('ok', e['cls'], '')
+    bits = e['bits']
+    if v == 'new': return ('ok', e['cls'], bits)
+    if v == 'slice':
+        a, b, st = e['k']
+        try: return ('ok', e['cls'], bits[a:b:st])
+        except ValueError: return ('err', 'ValueError')
+    if v in ('mul', 'rmul'):
+        return ('err', 'ValueError') if e['n'] < 0 else ('ok', e['cls'], bits * e['n'])
+    if v == 'add': return ('ok', e['cls'], bits + e['bits2'])
+    if v == 'radd': return ('ok', e['cls'], e['bits2'] + bits)
+    raise AssertionError(v)
+
+PROBE_IDX = [0, -1, 1, -2, 8]
+
+def seq_view(bits, lsb0):
+    return bits[::-1] if lsb0 else bits
+
+def probe_obj(r, L):
+    """everything the property says about one object: class, bits, len, truth value, iteration, indexing in and beyond range, slices, sums and products of it"""
+    def idx(i):
+        try: return bool(r[i])
+        except IndexError: return 'IndexError'
+    return [type(r).__name__, r.bin, len(r), bool(r), ''.join('1' if x else '0' for x in r), [idx(i) for i in PROBE_IDX + [L - 1, L, -L, -L - 1]],
+            r[::-1].bin, r[1:].bin, (r + '0b1').bin, ('0b10' + r).bin, (r * 2).bin, (r * 0).bin, (0 * r).bin, (r + type(r)()).bin, len(type(r)()), type(r * 0).__name__]
+
+def ref_probe(cls, bits, lsb0):
+    sv = seq_view(bits, lsb0); L = len(bits)
+    def idx(i): return (sv[i] == '1') if -L <= i < L else 'IndexError'
+    back = lambda x: x[::-1] if lsb0 else x
+    return [cls, bits, L, L != 0, sv, [idx(i) for i in PROBE_IDX + [L - 1, L, -L, -L - 1]],
+            back(sv[::-1]), back(sv[1:]), bits + '1', '10' + bits, bits * 2, '', '', bits, 0, cls, None]
+
+PROBE_NAMES = ['class', '.bin', 'len', 'bool', 'iteration', 'indexing at ' + str(PROBE_IDX) + ' and around the ends', '[::-1]', '[1:]', "+ '0b1'", "'0b10' +", '* 2', '* 0', '0 *', '+ cls()', 'len(cls())', 'class of * 0', 'the operand afterwards']
+
+def describe(e):
+    v = e['e']
+    if v == 'empty': return f"{e['cls']} made empty by {e['how']}"
+    s = f"{e['cls']}({e['bits']!r})"
+    if v == 'new': return f"{s} via {e.get('route')}"
+    if v == 'slice': return f"{s}[{e['k'][0]}:{e['k'][1]}:{e['k'][2]}]"
+    if v in ('mul', 'imul'): return f"{s} {'*=' if v == 'imul' else '*'} {e['n']}"
+    if v == 'rmul': return f"{e['n']} * {s}"
+    if v in ('add', 'iadd'): return f"{s} {'+=' if v == 'iadd' else '+'} {e['other']}({e['bits2']!r})"
+    if v == 'radd': return f"{e['other']}({e['bits2']!r}) + {s}"
+    if v in ('lshift', 'rshift', 'ilshift', 'irshift'): return f"{s} {'<<' if 'l' == v.lstrip('i')[0] else '>>'}{'=' if v[0] == 'i' else ''} {e['n']}"
+    extra = {k: x for k, x in e.items() if k not in ('e', 'cls', 'bits', 'route', 'edit', 'lsb0')}
+    return f"{s}.{v}{extra if extra else ''}"
+
+FIRST_CULPRIT = None        # diagnostic: the first prelude step of this process after which empty bitstrings were no longer empty
+
+def run_hist(c):
+    import bitstring
+    def f():
+        # diagnostic only: were empties already not empty when this case started (state left behind by an earlier case of this process)?
+        def off():
+            try: return [len(cls_of(k)()) for k in CLASSES] + [len(bitstring.Bits('0b1') * 0), len(bitstring.BitArray('0b1')[1:])] != [0] * 6
+            except Exception: return True
+        before = off(); culprit = None
+        for ei, e in enumerate(c['prelude']):
+            if culprit is None and not before and ei and off(): culprit = ei - 1
+            bitstring.options.lsb0 = bool(e.get('lsb0'))
+            try:
+                r = with_alarm(lambda: eval_expr(e), 3)
+                for x in (r if isinstance(r, (list, tuple)) else [r]): apply_edit(x, e.get('edit', 'none'))
+            except Exception:
+                pass                  # what a prelude expression gives or raises is not judged here (the sequence-level ones are evaluated again below)
+        bitstring.options.lsb0 = False
+        if culprit is None and not before and c['prelude'] and off(): culprit = len(c['prelude']) - 1
+        global FIRST_CULPRIT
+        if culprit is not None and FIRST_CULPRIT is None: FIRST_CULPRIT = describe(c['prelude'][culprit]) + (' [lsb0]' if c['prelude'][culprit].get('lsb0') else '')
+        if before: before = FIRST_CULPRIT or True
+        base = run_impl(c['base'])
+        lsb0 = bool(c.get('plsb0'))
+        out = []
+        for e in c['probes']:
+            bitstring.options.lsb0 = False
+            ref = ref_expr(e)
+            def g():
+                r = eval_expr(e)                      # evaluated under msb0, probed under the numbering of the case
+                bitstring.options.lsb0 = lsb0
+                p = probe_obj(r, len(ref[2]) if ref[0] == 'ok' else 0)
+                return p + [LAST_OPERAND.bin if e['e'] != 'empty' else '']          # the operand still holds its bits after all that
+            out.append(attempt(g))
+        bitstring.options.lsb0 = False
+        return [base, out, before, culprit]
+    return attempt(f, 30)
+
+def oracle_hist(c, obs):
+    pre = '; '.join(describe(e) + (f" then {e['edit']} on the result" if e.get('edit', 'none') != 'none' else '') + (' [lsb0]' if e.get('lsb0') else '') for e in c['prelude'])
+    pre = f"after the unrelated expressions {{{pre[:400]}}} "
+    if obs[0] != 'ok': return pre + f"the case could not be run: {obs}"
+    base, out, before, culprit = obs[1]
+    if culprit is not None: pre = f"after the unrelated expression {{{describe(c['prelude'][culprit])}{' [lsb0]' if c['prelude'][culprit].get('lsb0') else ''}}} (step {culprit + 1} of a prelude of {len(c['prelude'])}; empty bitstrings stopped being empty right after it) "
+    if before: pre = ("(empty bitstrings were already not empty when this case started: state left behind by an earlier case of this run"
+                      + (f", they stopped being empty right after its prelude step {{{before}}}" if isinstance(before, str) else '') + ") " + pre)
+    base = tuple(base) if isinstance(base, list) else base
+    m = oracle(c['base'], base)
+    if m: return pre + m
+    lsb0 = bool(c.get('plsb0'))
+    for e, o in zip(c['probes'], out):
+        ref = ref_expr(e)
+        o = tuple(o) if isinstance(o, list) else o
+        if ref[0] == 'err':
+            if o != ref: return pre + f"{describe(e)} should raise {ref[1]}, got {str(o)[:120]}"
+            continue
+        exp = ref_probe(ref[1], ref[2], lsb0)
+        exp[-1] = e.get('bits', '')
+        if o[0] != 'ok': return pre + f"probing {describe(e)} raised {o}; the model gives {ref[2]!r}"
+        for name, g, x in zip(PROBE_NAMES, o[1], exp):
+            if g != x:
+                return pre + f"{describe(e)}{' probed under lsb0' if lsb0 else ''}: {name} gives {str(g)[:100]!r}, the sequence model gives {str(x)[:100]!r} (the expression itself must give {ref[2][:64]!r} of class {ref[1]})"
+    return None
 
 def run_impl(c):
     import bitstring
     op = c['op']
+    if op == 'hist': return run_hist(c)
     if op == 'l0_slice':
         a, b, s = c['k']
         return attempt(lambda: ''.join(list(c['bits'])[slice(a, b, s)]))
@@ -100,6 +420,7 @@ def run_impl(c):
 
 def oracle(c, obs):
     op = c['op']
+    if op == 'hist': return oracle_hist(c, obs)
     bits = c['bits']
     if op == 'l0_slice': return None
     if c.get('lsb0'):
@@ -147,7 +468,12 @@ def oracle(c, obs):
         exp = ('ok', [bits * c['n'], c['cls']])
         return None if obs == exp else f"{op} {c['cls']}({bits!r}) * {c['n']} gave {str(obs)[:200]}, expected {len(bits) * c['n']} bits of class {c['cls']}"
 
+def _base_obs(obs):
+    b = obs[1][0]
+    return tuple(b) if isinstance(b, list) else b
+
 def nontrivial(c, obs):
+    if c['op'] == 'hist': return obs[0] == 'ok' and nontrivial(c['base'], _base_obs(obs))
     return len(c['bits']) > 0 and obs[0] == 'ok'
 
 def classify(c, obs):
@@ -155,6 +481,8 @@ def classify(c, obs):
 
 def coq_check(c, obs):
     op = c['op']
+    if op == 'hist':           # the model knows no history: the case inside is evaluated as it is
+        return coq_check(c['base'], _base_obs(obs)) if obs[0] == 'ok' else None
     if op == 'l0_slice':
         return f"rbits_eqb (seq_slice false {cbits(c['bits'])} {cslice(*c['k'])}) {cres(obs, cbits)}"
     if op == 'slice':
@@ -184,6 +512,7 @@ def coq_check(c, obs):
         return f"rbits_eqb (bs_mul false {cbits(c['bits'])} {cz(c['n'])}) {cres(o, cbits)}"
 
 def coq_model_term(c):
+    if c['op'] == 'hist': return coq_model_term(c['base'])
     op = c['op']
     if op == 'slice': return f"bs_getitem_slice false {cbits(c['bits'])} {cslice(*c['k'])}"
     if op == 'getitem': return f"bs_getitem_int false {cbits(c['bits'])} {cz(c['i'])}"
